@@ -17,7 +17,7 @@ RULE = ("Histories (Hypothesis rule-based state machine, replayable as JSON) ove
         "10 modes, 3 routes. Non-trivial history = a flag-raising write, later a clean write, and a reset; distinct = distinct operation sequences.")
 ASSUMPTIONS = ['n_word<=52; inputs exact doubles', 'callback counts are asserted for explicit writes on an existing object only (the constructor performs two internal writes)',
                'propagation through unary -, abs, shifts, like() and equal() is not asserted (statement names arithmetic; anchors name function wrappers and Fxp-from-Fxp)']
-EXHAUSTIVE = True
+EXHAUSTIVE = False    # the whole quantifier is not enumerated; complete sub-domains are listed in EXHAUSTIVE_SUBDOMAINS
 EXHAUSTIVE_SUBDOMAINS = {'quick': ['boundary writes: n_word<=6 x n_frac -8..n_word+8 x 10 modes x 18 boundary inputs x 3 routes'], 'thorough': ['same']}
 REQUIRED_CLASSES = {'history:raise-clean-reset': 50, 'write:overflow': 300, 'write:underflow': 300, 'write:inexact': 300, 'op:reset': 200, 'op:resize': 200,
                     'op:arith': 200, 'op:write_fxp': 200, 'boundary': 10000}
